@@ -165,7 +165,8 @@ class Run:
         self.fail = collections.deque()
 
         def create():
-            if self.fail and self.fail.popleft():
+            # LIFO: a reconnect() nested in a callback of an outer reconnect() reaches _create_socket first
+            if self.fail and self.fail.pop():
                 raise ConnectionRefusedError(111, "refused")
             self.nsock += 1
             s = Sock(self, self.nsock)
@@ -391,3 +392,340 @@ def first_diff(cfg, impl_res, model_res):
         if list(ist) != list(mst):
             return {"op_index": i, "what": "state", "impl": ist, "model": mst}
     return None
+
+
+# ------------------------------------------------------------------ hypotheses of the theorems, findings
+EXCL = ["D", "G", "R", "C", "F", "E"]
+SIGNATURE = {
+    "D": "F-C10d-publish-in-socket-open",
+    "E": "F-C10e-connack-after-disconnect",
+    "F": "F-C10f-write-error-inside-loop-read",
+    "G": "F-C10g-reconnect-in-on-disconnect-after-disconnect",
+    "H": "F-C10h-connected-inside-sock-close",
+    "R": "F-C10i-connection-calls-in-teardown-callbacks",
+    "C": "F-C10j-reconnect-in-on-connect-refused",
+    "T": "F-C16a-reconnect-in-teardown-callbacks",
+}
+C10_KEYS = ["c10_connected_x", "c10_one_disconnect", "c10_wire"]
+C16_KEYS = ["c16_open_close", "c16_reg_nested", "c16_no_lost_wakeup"]
+
+
+def classify_batch(cases):
+    """Per case: (c10_ok, c16_ok, set of exclusions of C10 that are violated - exact when at most one is)."""
+    args = [enc_cfg(cfg) + [len(ops)] + [x for o in ops for x in enc_op(o)] for cfg, ops in cases]
+    outs = model.run_batch(TAG, 4, args)
+    res = []
+    for o in outs:
+        c10ok, c16ok = bool(o[0]), bool(o[1])
+        drop = o[11:17]
+        if c10ok:
+            viol = set()
+        else:
+            viol = {x for x, f in zip(EXCL, drop) if f}
+            if not viol:
+                viol = {"many"}
+        res.append((c10ok, c16ok, viol))
+    return res
+
+
+# ------------------------------------------------------------------ generation
+def cfgs_all():
+    out = []
+    for ext in (False, True):
+        for sockcb in (False, True):
+            for proto in (4, 5, 3):
+                out.append({"ext": ext, "sockcb": sockcb, "proto": proto, "api": 2 if (ext + sockcb + proto) % 2 == 0 else 1})
+    return out
+
+
+def small_alphabet(cfg):
+    """~16 operations, all within the hypotheses of the C10/C16 theorems"""
+    refused = 135 if cfg["proto"] == 5 else 5
+    A = [O(("connect", True)), O(("reconnect", True)), O(("reconnect", False)), O(("disconnect",)), O(("publish",)),
+         O(("publish",), (2,)), O(("write",)), O(("write",), (1, 2)), O(("write",), (4,)),
+         O(("read", "connack", 0)), O(("read", "connack", refused)), O(("read", "eof")), O(("read", "unknown")),
+         O(("read", "sdisc", 0)), O(("misc", 1)), O(("misc", 2)),
+         O(("read", "connack", 0), (), scr_of(connect=[[0]])),
+         O(("read", "eof"), (), scr_of(disconnect=[[3]]))]
+    return A
+
+
+def rand_op(rng, cfg, within=True):
+    v5 = cfg["proto"] == 5
+    k = rng.choice(["connect", "reconnect", "disconnect", "publish", "subscribe", "read", "read", "read", "write", "write", "misc"])
+    if k in ("connect", "reconnect"):
+        call = (k, rng.random() < 0.8)
+    elif k == "read":
+        kind = rng.choice(["connack", "connack", "connack", "downgrade", "sdisc", "unknown", "eof", "rerr", "pingreq",
+                           "pingresp", "other", "nodata"])
+        if kind == "connack":
+            call = ("read", kind, rng.choice([0, 0, 0, 1, (135 if v5 else 5)]))
+        elif kind == "downgrade":
+            call = ("read", kind, int(rng.random() < 0.7))
+        elif kind == "sdisc":
+            call = ("read", kind, rng.choice([0, 139]), rng.choice([0, 1]))
+        elif kind == "unknown":
+            call = ("read", kind, 0, rng.choice([0, 1]))
+        else:
+            call = ("read", kind)
+    elif k == "misc":
+        call = ("misc", rng.choice([0, 1, 1, 2]))
+    else:
+        call = (k,)
+    outs = [0, 0, 1, 2, 2, 3, 4]
+    if within and k == "read" and not cfg["ext"]:
+        outs = [0, 0, 1, 2, 2, 3]
+    sched = tuple(rng.choice(outs) for _ in range(rng.choice([0, 0, 1, 1, 2, 3])))
+    scr = []
+    refusing = call[0] == "read" and ((call[1] == "connack" and call[2] != 0) or call[1] == "downgrade")
+    for s in SITES:
+        q = []
+        if rng.random() < 0.3 and not (within and s == "open"):
+            cl = [0, 1, 2, 3, 3, 4]
+            if within:
+                if s in ("close", "unregw"):
+                    cl = [0, 1]
+                elif s in ("regw", "discopen") or (s == "connect" and refusing):
+                    cl = [0, 1, 2]
+            for _ in range(rng.choice([1, 1, 2])):
+                q.append(tuple(rng.choice(cl) for _ in range(rng.choice([0, 1, 1, 2]))))
+        scr.append(tuple(q))
+    return O(call, sched, scr)
+
+
+def random_case(rng, within=True):
+    cfg = dict(rng.choice(cfgs_all()))
+    cfg["api"] = rng.choice([1, 2])
+    n = rng.choice([2, 3, 4, 6, 8, 12, 20])
+    return cfg, [rand_op(rng, cfg, within) for _ in range(n)]
+
+
+def corpus_cases():
+    """(name, cfg, ops, expected signature or None).  First the replays of the repaired defects F-C10a/b/c
+    (they must pass on the current tree), then the witnesses of the open findings (Link/ConnRefuted.v)."""
+    d4 = {"ext": False, "sockcb": False, "proto": 4, "api": 2}
+    d5 = dict(d4, proto=5)
+    cb = dict(d4, sockcb=True)
+    ex = dict(d4, ext=True)
+    excb = dict(d4, ext=True, sockcb=True)
+    ca = O(("read", "connack", 0))
+    return [
+        ("F-C10a-protocol-error-leaves-connected", d4, [O(("connect", True)), ca, O(("read", "unknown"))], None),
+        ("F-C10a-refused-connack", dict(d4, api=1), [O(("connect", True)), ca, O(("read", "connack", 5))], None),
+        ("F-C10b-double-on-disconnect-on-keepalive", d4, [O(("connect", True)), ca, O(("misc", 1)), O(("misc", 1))], None),
+        ("F-C10b-ping-timeout", dict(d4, api=1), [O(("connect", True)), ca, O(("misc", 1)), O(("misc", 2))], None),
+        ("F-C10c-server-disconnect-leaves-connected", d5, [O(("connect", True)), ca, O(("read", "sdisc", 139, 1))], None),
+        ("F-C10c-server-disconnect-empty-body", dict(d5, api=1), [O(("connect", True)), ca, O(("read", "sdisc", 0, 0))], None),
+        ("F-C10h", ex, [O(("connect", True)), ca, O(("connect", False))], "H"),
+        ("F-C10e", d4, [O(("connect", True)), O(("disconnect",), (2,)), ca, O(("write",))], "E"),
+        ("F-C10e-rc", d4, [O(("connect", True)), O(("disconnect",), (2,)), ca, O(("read", "eof"))], "E"),
+        ("F-C10f", d4, [O(("connect", True)), O(("read", "pingreq"), (4,))], "F"),
+        ("F-C10f-downgrade", d4, [O(("connect", True)), O(("read", "downgrade", 1), (4,))], "F"),
+        ("F-C10g", d4, [O(("connect", True)), O(("disconnect",), (), scr_of(discopen=[[3]]))], "G"),
+        ("F-C10d", cb, [O(("connect", True), (), scr_of(open=[[0]]))], "D"),
+        ("F-C10i", ex, [O(("connect", True)), O(("disconnect",)), O(("read", "eof"), (), scr_of(unregw=[[3]]))], "R"),
+        ("F-C10i-close", cb, [O(("reconnect", True)), O(("reconnect", True), (4,), scr_of(close=[[2]]))], "R"),
+        ("F-C10j", d4, [O(("connect", True)), O(("read", "connack", 5), (), scr_of(connect=[[4]]))], "C"),
+        ("F-C16a", excb, [O(("connect", True)), O(("connect", True), (), scr_of(unregw=[[3]]))], "T"),
+        ("F-C16a-close", cb, [O(("reconnect", True)), O(("reconnect", True), (), scr_of(close=[[3]]))], "T"),
+    ]
+
+
+def short(o):
+    call, sched, scr = o
+    s = "/".join(str(x) for x in call)
+    if sched:
+        s += "@" + "".join(map(str, sched))
+    for n, q in zip(SITES, scr):
+        if q:
+            s += "{%s:%s}" % (n, ",".join("".join(map(str, x)) for x in q))
+    return s
+
+
+def t_excluded(o):
+    """exclusion T of the C16 theorems"""
+    return any(a in (3, 4) for site in ("close", "unregw") for s in o[2][SITES.index(site)] for a in s)
+
+
+# ------------------------------------------------------------------ running and judging
+def run_cases(cases, out, prop, stats=True):
+    """cases: list of (cfg, ops).  Compares implementation and model per operation and judges the implementation
+    trace with the extracted checkers.  prop: "C10" or "C16"."""
+    if not cases:
+        return []
+    mres = run_model_batch(cases)
+    cls = classify_batch(cases)
+    impl_runs = []
+    for (cfg, ops), (mr, _) in zip(cases, mres):
+        out.cases += 1
+        try:
+            ir = run_impl(cfg, ops)
+        except Exception as e:
+            out.disagreements.append({"case": {"cfg": cfg, "ops": ops}, "what": f"implementation raised {type(e).__name__}: {e}"})
+            impl_runs.append(None)
+            continue
+        out.validated += 1
+        impl_runs.append(ir)
+        d = first_diff(cfg, ir, mr)
+        if d is not None:
+            d["case"] = {"cfg": cfg, "ops": ops[:d["op_index"] + 1]}
+            out.disagreements.append(d)
+        if stats:
+            for o in ops:
+                out.stat("op:" + (o[0][0] if o[0][0] != "read" else "read-" + o[0][1]))
+                for n, q in zip(SITES, o[2]):
+                    if any(q):
+                        out.stat("script-at:" + n)
+            out.stat("len:%d" % len(ops))
+            out.stat("cfg:ext=%d,sockcb=%d,proto=%d,api=%d" % (cfg["ext"], cfg["sockcb"], cfg["proto"], cfg.get("api", 2)))
+            key = (tuple(sorted(cfg.items())), tuple(tuple(tuple(e) for e in evs) for evs, _ in ir))
+            if prop == "C10":
+                nontriv = any(e[0] in (1, 6, 7) for evs, _ in ir for e in evs)
+            else:
+                nontriv = cfg["sockcb"] and any(e[0] in (2, 3, 4, 5) for evs, _ in ir for e in evs)
+            out.seen(key, nontrivial=nontriv)
+    todo = [i for i in range(len(cases)) if impl_runs[i] is not None]
+    verdicts = check_traces([(cases[i][0], [evs for evs, _ in impl_runs[i]]) for i in todo])
+    results = []
+    for i, v in zip(todo, verdicts):
+        cfg, ops = cases[i]
+        c10ok, c16ok, viol = cls[i]
+        res = {"case": i, "verdicts": v, "viol": viol}
+        results.append(res)
+        if prop == "C10":
+            bad = [k for k in C10_KEYS if not v[k]]
+            if bad:
+                if not viol:
+                    sig = "C10-within-hypotheses:" + ",".join(bad)
+                elif len(viol) == 1 and "many" not in viol:
+                    sig = SIGNATURE[next(iter(viol))]
+                else:
+                    continue        # several exclusions at once: not attributed
+                out.violations.append({"case": {"cfg": cfg, "ops": ops}, "checkers": bad, "signature": sig,
+                                       "what": "extracted checker(s) %s reject the trace recorded from the implementation" % bad,
+                                       "ops_short": [short(o) for o in ops]})
+            elif not v["c10_connected"] and v["c10_connected_x"] and not viol:
+                out.stat("F-C10h-observed")
+        else:
+            keys = [k for k in C16_KEYS if (cfg["sockcb"] and (cfg["ext"] or k == "c16_open_close"))]
+            bad = [k for k in keys if not v[k]]
+            if bad:
+                tex = any(t_excluded(o) for o in ops)
+                sig = SIGNATURE["T"] if tex else "C16-within-hypotheses:" + ",".join(bad)
+                out.violations.append({"case": {"cfg": cfg, "ops": ops}, "checkers": bad, "signature": sig,
+                                       "what": "extracted checker(s) %s reject the trace recorded from the implementation" % bad,
+                                       "ops_short": [short(o) for o in ops]})
+    return results
+
+
+def shrink(cfg, ops, failing):
+    cur = list(ops)
+    changed = True
+    while changed:
+        changed = False
+        for i in range(len(cur)):
+            cand = cur[:i] + cur[i + 1:]
+            if cand and failing(cfg, cand):
+                cur = cand
+                changed = True
+                break
+    return cur
+
+
+def judge_one(cfg, ops):
+    ir = run_impl(cfg, ops)
+    return check_traces([(cfg, [e for e, _ in ir])])[0], ir
+
+
+def standard_run(ctx, out, prop):
+    rng = ctx.rng
+    # 1. corpus: repaired defects must pass, open findings must be detected with their signature
+    corpus = corpus_cases()
+    res = run_cases([(cfg, [norm_op(o) for o in ops]) for _, cfg, ops, _ in corpus], out, prop)
+    byidx = {r["case"]: r for r in res}
+    for i, (name, cfg, ops, exp) in enumerate(corpus):
+        v = byidx[i]["verdicts"]
+        keys = C10_KEYS if prop == "C10" else C16_KEYS
+        if exp is None and prop == "C10" and not all(v[k] for k in keys + ["c10_connected"]):
+            out.notes.append(f"corpus case {name} (repaired defect) is rejected again: { {k: v[k] for k in keys} }")
+        if exp is not None:
+            hit = (not v["c10_connected"]) if exp == "H" else (not all(v[k] for k in (C16_KEYS[:2] if exp == "T" else C10_KEYS)))
+            out.stat(("finding-reproduced:" if hit else "finding-not-reproduced:") + SIGNATURE[exp])
+            if exp == "H" and hit and prop == "C10":
+                out.violations.append({"case": {"cfg": cfg, "ops": ops}, "checkers": ["c10_connected"], "signature": SIGNATURE["H"],
+                                       "what": "is_connected() is true with socket() None at the entry of on_socket_close/on_socket_unregister_write",
+                                       "ops_short": [short(o) for o in ops]})
+    if not out.samples:
+        cfg, ops = corpus[1][1], corpus[1][2]
+        ir = run_impl(cfg, ops)
+        out.sample({"cfg": cfg, "ops": [short(o) for o in ops], "impl_events_per_op": [e for e, _ in ir],
+                    "event_codes": "0 SockNew 1 ConnEnd 2 SockOpen 3 SockClose 4 RegW 5 UnregW 6 CbConnect 7 CbDisconnect 8 CbPublish 9 Tx 10 Call 11 Ret 12 Raised 15 Obs"})
+    # 2. exhaustive small scope (operations within the hypotheses): connect() followed by every list of L-1 operations
+    L = 4 if ctx.quick else 5
+    cfgs = cfgs_all()
+    if ctx.quick:
+        cfgs = [c for c in cfgs if c["proto"] != 3]
+    ex = []
+    if ctx.scale <= 1:
+        for cfg in cfgs:
+            if prop == "C16" and not cfg["sockcb"]:
+                continue
+            A = small_alphabet(cfg)
+            pre = [O(("connect", True))]
+            if ctx.quick:
+                A = A[:12] + A[16:]
+                for seq in itertools.product(A, repeat=3):
+                    ex.append((cfg, pre + list(seq)))
+            else:
+                for seq in itertools.product(A, repeat=3):
+                    ex.append((cfg, pre + list(seq)))
+                for seq in itertools.product(A[:4] + A[5:7] + A[8:12] + A[14:15], repeat=4):
+                    ex.append((cfg, pre + list(seq)))
+    for i in range(0, len(ex), 3000):
+        run_cases(ex[i:i + 3000], out, prop, stats=(i == 0))
+    out.stats["exhaustive_len"] = L
+    out.stats["exhaustive_cases"] = len(ex)
+    # 3. seeded random: mostly within the hypotheses, some outside (attributed to a finding when exactly one exclusion is broken)
+    n = ctx.n(6000, 60000)
+    cases = []
+    for _ in range(n):
+        cfg, ops = random_case(rng, within=rng.random() < 0.85)
+        if prop == "C16":
+            cfg["sockcb"] = True
+        cases.append((cfg, ops))
+    for i in range(0, len(cases), 3000):
+        run_cases(cases[i:i + 3000], out, prop)
+    out.exhaustive = False
+    # failures inside the hypotheses of the theorems first: they are never an already known finding
+    out.violations.sort(key=lambda v: 0 if "within-hypotheses" in v["signature"] else 1)
+
+
+def replay_case(payload, prop):
+    case = payload["case"]
+    cfg, ops = case["cfg"], [norm_op(o) for o in case["ops"]]
+    v, ir = judge_one(cfg, ops)
+    m, _ = run_model_batch([(cfg, ops)])[0]
+    d = first_diff(cfg, ir, m)
+    if prop == "C10":
+        keys = list(C10_KEYS)
+        if payload.get("signature") == SIGNATURE["H"]:
+            keys.append("c10_connected")
+    else:
+        keys = [k for k in C16_KEYS if (cfg["sockcb"] and (cfg["ext"] or k == "c16_open_close"))]
+    ok = all(v[k] for k in keys) and d is None
+    return ok, {"verdicts": v, "model_vs_impl": d, "ops": [short(o) for o in ops], "impl_events_per_op": [e for e, _ in ir]}
+
+
+def finding_fails(sig):
+    """does the corpus witness of the finding with this signature still fail on the implementation?"""
+    for name, cfg, ops, exp in corpus_cases():
+        if exp is not None and SIGNATURE[exp] == sig:
+            v, _ = judge_one(cfg, [norm_op(o) for o in ops])
+            if exp == "H":
+                bad = not v["c10_connected"]
+            elif exp == "T":
+                bad = not (v["c16_open_close"] and v["c16_reg_nested"])
+            else:
+                bad = not all(v[k] for k in C10_KEYS)
+            return bad, {"witness": name, "verdicts": v}
+    return False, {"error": "no corpus witness with signature " + sig}
